@@ -44,7 +44,8 @@ type scope struct {
 	disposed int32 // atomic
 }
 
-func newScope(rootProvider *provider, parent *scope, ctx context.Context, cancel context.CancelFunc) (*scope, error) {
+// newUninitializedScope creates a scope without running the scope initialization functions.
+func newUninitializedScope(rootProvider *provider, parent *scope, ctx context.Context, cancel context.CancelFunc) *scope {
 	if ctx == nil {
 		ctx = context.Background()
 	}
@@ -65,20 +66,32 @@ func newScope(rootProvider *provider, parent *scope, ctx context.Context, cancel
 	ctx = context.WithValue(ctx, scopeContextKey{}, s)
 	s.context = ctx
 
-	// Initialize scoped services with no returns (initialization functions)
-	// These need to be called when the scope is created
-	for _, descriptor := range rootProvider.voidReturnScopedDescriptors {
+	return s
+}
+
+func newScope(rootProvider *provider, parent *scope, ctx context.Context, cancel context.CancelFunc) (*scope, error) {
+	s := newUninitializedScope(rootProvider, parent, ctx, cancel)
+	if err := s.runInitializers(); err != nil {
+		return nil, err
+	}
+
+	return s, nil
+}
+
+// runInitializers calls the scoped services with no returns (initialization functions).
+// These need to be called when the scope is created.
+func (s *scope) runInitializers() error {
+	for _, descriptor := range s.rootProvider.voidReturnScopedDescriptors {
 		if _, err := s.createInstance(descriptor); err != nil {
-			return nil, &ResolutionError{
+			return &ResolutionError{
 				ServiceType: descriptor.Type,
 				ServiceKey:  descriptor.Key,
 				Cause:       fmt.Errorf("failed to initialize scoped service: %w", err),
 			}
-
 		}
 	}
 
-	return s, nil
+	return nil
 }
 
 // Provider returns the parent provider that created this scope.
